@@ -8,3 +8,8 @@ var VerifFS *fs.Filesystem
 func verifFilesystemStub(c *Configuration) *fs.Filesystem { return VerifFS }
 
 func verifExtensionsStub(c *Configuration) map[string]Extension { return map[string]Extension{} }
+
+// VerifTmp is returned by the stubbed (*Configuration).TempDir.
+var VerifTmp string
+
+func verifTempDirStub(c *Configuration) string { return VerifTmp }
